@@ -80,11 +80,11 @@ func (g *schemaGenerator) generateReferencedType(t *schemas.Type) (codegen.Type,
 	}
 
 	if t.Ref == "#" {
+		// "#" is the document root. Use the type being declared for it, behind a pointer because the
+		// root contains this very reference.
 		if schemaOutput, ok := g.outputs[g.schema.ID]; ok {
-			if decl, ok := schemaOutput.declsBySchema[t]; ok {
-				if decl != nil {
-					return decl.Type, nil
-				}
+			if decl, ok := schemaOutput.declsBySchema[(*schemas.Type)(g.schema.ObjectAsType)]; ok && decl != nil {
+				return codegen.WrapTypeInPointer(&codegen.NamedType{Decl: decl}), nil
 			}
 		}
 
